@@ -525,6 +525,8 @@ func init() {
 	p := registry["C17"]
 	p.Rules = append(p.Rules, RuleDef{ID: "C17.R4", Text: "${VAR} substitution: for every match of the placeholder pattern, when LookupEnv(name) reports the variable as set, ALL occurrences of \"${\"+name+\"}\" are replaced by its value in the text that is finally unmarshalled", Run: c17r4})
 	p.Rules = append(p.Rules, RuleDef{ID: "C17.R6", Text: "an explicitly set value stays what it is: outside package config the configuration is only read — no store into a configuration field, no update of a configuration map (frozen exception: stream.Open disables rollback mitigation for an ephemeral bucket)", Run: configImmutable})
+	p.Rules = append(p.Rules, RuleDef{ID: "C17.R12", Text: "placeholders and overrides are resolved against the real environment: the module reads the process environment and never writes it (no Setenv/Unsetenv/Clearenv)", Run: envReadOnly})
+	p.Rules = append(p.Rules, RuleDef{ID: "C17.R13", Text: "defaulting sees the configuration the application wrote: the pointer, struct value or loaded file handed to the public constructors reaches the defaulting function as it is — no copy, clone or normalisation step in between (which can turn unset into set)", Run: configHandedOn})
 	p.Rules = append(p.Rules, RuleDef{ID: "C17.R11", Text: "the two-pass load (raw, then with ${VAR} substituted, into the same value) overwrites: no configuration type decodes itself (no Unmarshal*/Decode* method on a type of package config)", Run: noCustomDecoding})
 	p.Rules = append(p.Rules, RuleDef{ID: "C17.R10", Text: "a size string whose numeric part does not parse is an error exactly on the branch on which the parse failed, and a string that is neither integer nor number+unit is fatal", Run: parseFailures})
 	p.Rules = append(p.Rules, RuleDef{ID: "C17.R9", Text: "an override that cannot be parsed is fatal, never silently zero: in every derived-settings getter each parse error reaches a panic along the edges on which it is non-nil; the file backend's file name is returned ⇔ configured and not empty (exhaustive)", Run: overrideParsing})
